@@ -432,10 +432,83 @@ def search(con, fn, n, seed, want_fail=True):
             'oracle_errors': oracle_errors, 'gen_errors': gen_errors, 'mismatch': mismatch}
 
 
+def lemma_case(lem, argdescs):
+    names = list(lem.params)
+    res = {'args': argdescs}
+    try:
+        memo = {}
+        args = [build(argdescs[n], memo) for n in names]
+    except Unbuildable as e:
+        res['unbuildable'] = str(e)
+        return res
+    hyp = _method(lem, 'hypothesis')
+    try:
+        res['requires'] = bool(hyp(*args)) if hyp is not None else True
+    except Exception as e:
+        res['requires'] = False
+        res['requires_error'] = '%s: %s' % (type(e).__name__, e)
+    if not res['requires']:
+        return res
+    try:
+        res['statement'] = bool(_method(lem, 'statement')(*args))
+    except Exception as e:
+        res['oracle_error'] = '%s: %s' % (type(e).__name__, e)
+        return res
+    wit = _method(lem, 'witness')
+    if wit is not None and not res['statement']:
+        try:
+            res['witness'] = wit(*args)
+        except Exception as e:
+            res['witness'] = 'witness raised %s: %s' % (type(e).__name__, e)
+    res['agree'] = res['statement']
+    return res
+
+
+def lemma_search(lem, n, seed):
+    rng = random.Random(seed)
+    gen = _method(lem, 'gen')
+    names = list(lem.params)
+    tried = accepted = 0
+    mismatch = None
+    distinct = set()
+    while accepted < n and tried < n * 400:
+        tried += 1
+        try:
+            argdescs = gen(rng) if gen is not None else dict((nm, sample_kind(rng, lem.params[nm])) for nm in names)
+        except Exception:
+            continue
+        res = lemma_case(lem, argdescs)
+        if not res.get('requires'):
+            continue
+        accepted += 1
+        distinct.add(json.dumps(argdescs, sort_keys=True, default=str))
+        if 'oracle_error' in res or res.get('agree') is False:
+            mismatch = res
+            break
+    return {'tried': tried, 'accepted': accepted, 'distinct': len(distinct), 'mismatch': mismatch,
+            'oracle_errors': 1 if mismatch and 'oracle_error' in mismatch else 0}
+
+
 def main(argv):
     req = json.load(open(argv[1]))
     for m in req.get('contract_modules', []):
         importlib.import_module(m)
+    if req['target'].startswith('lemma:'):
+        lem = CT.LEMMAS[req['target'][6:]]
+        if req['mode'] == 'replay':
+            out = lemma_case(lem, req['args'])
+        elif req['mode'] == 'case':
+            names = list(lem.params)
+            try:
+                vals_ = dict((n, build(req['args'][n])) for n in names)
+                g = dict(sys.modules[lem.__module__].__dict__)
+                out = {'case': bool(eval(req['case'], g, vals_))}
+            except Exception as e:
+                out = {'case': False, 'error': '%s: %s' % (type(e).__name__, e)}
+        else:
+            out = lemma_search(lem, req.get('n', 200), req.get('seed', 0))
+        json.dump(out, sys.stdout, default=str)
+        return 0
     con = CT.REGISTRY[req['target']]
     fn, owner = CT.resolve(req['target'])
     if req['mode'] == 'replay':
